@@ -721,6 +721,8 @@ def h_tx_commit(kind: str, async_edges: bool):
             ok, rc = env.lookup("retry_count")
             return [("RETRY:no-flip-carried-into-another-attempt", z3.BoolVal(not g["committed"] and not g["ambiguous"] and not g["rollbacks"])),
                     ("GUAR-tx:g2:markers-and-written-files-are-carried-unchanged-into-every-attempt", z3.BoolVal(kept())),
+                    ("ACTIVE-INV:the-commit-point-guard-is-armed-whenever-an-attempt-starts(also-after-a-conflict-retry)",
+                     z3.BoolVal(tx.fields.get("_commit_point_may_have_passed") is True)),
                     ("RETRY:retry_count-in-range", z3.And(pyops.int_z(rc) >= 0, pyops.int_z(rc) <= 50))]
 
         def havoc(I, env, it):
@@ -803,6 +805,28 @@ try:
         if r not in ([1], [1, 2]): bad.append(("interrupt after flip: unexpected rows", r))
     except Exception as e:
         bad.append(("interrupt after the pointer flip: the committed snapshot's data files were deleted by the context-manager rollback", repr(e)[:120]))
+    # (1b) the same interrupt on the RETRY after a clean conflict (the guard has to be re-armed for every attempt)
+    p = os.path.join(root, "t1b"); t = create_table(p, schema=sch); t.append_records([{"a": 1}])
+    calls = {"n": 0}
+    def conflict_then_flip_interrupt(self, *a, **k):
+        calls["n"] += 1
+        if calls["n"] == 1:
+            raise mmod.ConcurrentModificationException("lost the race (injected)")
+        real(self, *a, **k)
+        raise KeyboardInterrupt()
+    mmod.MetadataManager._write_hint_at_commit_point = conflict_then_flip_interrupt
+    try:
+        try:
+            t.append_records([{"a": 2}])
+        except KeyboardInterrupt:
+            pass
+    finally:
+        mmod.MetadataManager._write_hint_at_commit_point = real
+    try:
+        r = rows(p)
+        if r not in ([1], [1, 2]): bad.append(("interrupt after flip on a retry: unexpected rows", r))
+    except Exception as e:
+        bad.append(("interrupt after the pointer flip on a RETRY: the committed snapshot's data files were deleted by the rollback", repr(e)[:120]))
     # (2) a clean pointer-write failure leaves the pre-state and removes the transaction's files
     p = os.path.join(root, "t2"); t = create_table(p, schema=sch); t.append_records([{"a": 1}])
     before = set(t.storage.list_files("data"))
@@ -871,7 +895,10 @@ def h_commit_file_ops(mode: str):
         g = {"list_reads": [], "man_reads": [], "new_manifests": [], "list_writes": [], "snap_calls": [], "order": [], "final": _acc.new_acc("final_manifests")}
         g["final"].fields["mk_earlier"] = lambda I2: SObj("ManifestFile", {"manifest_path": SStr(I2.ctx.fresh_str("some_manifest_of_the_list")), "partition_spec_id": 0}, label="some-manifest-of-the-new-list")
         w_orig = {"added_snapshot_id": SOpt(z3.Bool("witness_file_added_sid_none"), SInt(z3.Int("witness_file_added_sid"))),
-                  "sequence_number": SOpt(z3.Bool("witness_file_seq_none"), SInt(z3.Int("witness_file_seq")))}
+                  "sequence_number": SOpt(z3.Bool("witness_file_seq_none"), SInt(z3.Int("witness_file_seq"))),
+                  "checksum": SOpt(z3.Bool("witness_file_checksum_none"), SStr(z3.String("witness_file_checksum"))),
+                  "record_count": SInt(z3.Int("witness_file_record_count")),
+                  "file_size_in_bytes": SInt(z3.Int("witness_file_size"))}
         w_file = SObj("DataFile", dict(w_orig, file_path=SStr(z3.String("witness_file_path"))), label="witness-file")
         w_in_manifest = z3.Bool("witness_file_in_manifest")
         cur = {}
@@ -983,12 +1010,19 @@ def h_commit_file_ops(mode: str):
                             keep = [m_ for (w, m_) in wit if w is w_file]
                             stripped = z3.Function("str.lstrip[2f]", STR, STR)(wz)
                             spec = z3.And(w_in_manifest, z3.Not(z3.IsMember(wz, deleted.z)), z3.Not(z3.IsMember(stripped, deleted.z)))
+                            if not keep:    # a comprehension rebuilt the survivors: the entry derived from the witness carries its condition
+                                keep = [m_ for (w, m_) in wit if isinstance(w, SObj) and w.cls == "DataFile"][:1]
                             res.append(("DELETE-EXACT:a-file-survives-iff-neither-spelling-of-its-path-is-named",
                                         (keep[0] == spec) if keep else z3.BoolVal(False)))
                             _eq = lambda a, b: z3.BoolVal(True) if a is b else pyops.bool_z(pyops.py_eq(a, b))
+                            # the object handed over for the witness: the witness itself, or (comprehension) the object built from it
+                            cand = w_file if any(w is w_file for (w, m_) in wit) else next((w for (w, m_) in wit if isinstance(w, SObj) and w.cls == "DataFile"), None)
+                            cf = cand.fields if cand is not None else {}
                             res.append(("CARRY:survivors-are-handed-to-the-rewrite-with-the-adding-snapshot-and-sequence-number-they-were-read-with",
-                                        z3.Implies(spec, z3.And(_eq(w_file.fields.get("added_snapshot_id"), w_orig["added_snapshot_id"]),
-                                                                _eq(w_file.fields.get("sequence_number"), w_orig["sequence_number"])))))
+                                        z3.Implies(spec, z3.And(_eq(cf.get("added_snapshot_id"), w_orig["added_snapshot_id"]),
+                                                                _eq(cf.get("sequence_number"), w_orig["sequence_number"])))))
+                            res.append(("CARRY:survivors-keep-their-recorded-checksum,row-count-and-size(readers-verify-against-them)",
+                                        z3.Implies(spec, z3.And(*[_eq(cf.get(k_), w_orig[k_]) for k_ in ("checksum", "record_count", "file_size_in_bytes")]))))
                             res.append(("CARRY:rewrite-stamped-with-this-commit's-snapshot-id-and-sequence-number",
                                         z3.BoolVal(nm[0]["args"][2] is cur["snapshot_id"] and nm[0]["kw"].get("sequence_number") is cur["seq"])))
                             res.append(("GUAR-tx:rewritten-manifest-registered-in-flight-before-written",
